@@ -19,12 +19,18 @@ Proved here, for every machine state / dictionary / fuel:
   every position, nested, failing or not): when it is done every variable that existed has its value, the
   data stack that existed is still there underneath, the context is the one before. (`_partial`: that nothing
   is left *on top* of the stack is checked by the correspondence and the oracle, not yet by a theorem.)
-Not yet theorems (decided by correspondence + the implementation-side oracle, see harness c11.rs):
-"P[#( e #)] = P[values of e]" as a statement about two programs, and "eval = compile; run".
+* `meta_block_opens`, `meta_block_steps`, `meta_block_closes_clean` — a block opened outside a meta block, as a
+  whole: inside it the session stays an extension of the session at the `#(` through every step the token loop
+  can take; when it closes, the session is the one at the `#(` with the code extended by one literal per result
+  — the opcodes the compiler emits for the same values written as literals — and only constants added to the
+  dictionary. This is "P[#( e #)] = P[values of e]" step by step; the composition into a statement about the two
+  token lists (which needs the syntactic matching of `#(`/`#)`, themselves dictionary words) is decided by the
+  correspondence and the inline oracle, as is "eval = compile; run".
 Known finding (listed in known_findings.json): a block nested in another block shares that block's stack —
 pinned by the existing suite (`test_meta_stack`), contradicting "sealed" for that position.
 -/
 import XehModel.Proofs.SessionUnwind
+import XehModel.Proofs.SessionBlock
 
 namespace Xeh.C11
 open Xeh Xeh.Mach Xeh.Compile Xeh.Session Xeh.Session.Sess
@@ -130,7 +136,7 @@ theorem source_never_changes_what_was_there_partial (fuel : Nat) (toks : List To
     s'.m.heap.take s.m.heap.length = s.m.heap ∧ hidOf s'.m.ds s.m.ds.length = s.m.ds ∧
     hidOf s'.m.rs s.m.rs.length = s.m.rs ∧ s'.m.code.take s.m.code.length = s.m.code ∧
     s'.m.ctx = s.m.ctx ∧ s'.nested = s.nested := by
-  have hb := sok_build1 (ext_open idle .compile (by decide)) fuel toks
+  have hb := sok_build1 (ext_open idle .compile (by decide)) (by decide) fuel toks
   unfold Sess.buildSource at h
   simp only [] at h
   generalize hg : (s.contextOpen .compile).build1 fuel toks = r at h hb
@@ -146,6 +152,57 @@ theorem source_never_changes_what_was_there_partial (fuel : Nat) (toks : List To
   | panic p s2 => cases h
   | unsupported u => cases h
   | timeout => cases h
+
+/-! ### a meta block as a whole: `#(` … `#)` is equivalent to its results written as literals
+
+A block opened in a context that is not itself a meta block (top level, inside builders, inside definitions,
+inside conditionals and loops). `Ext .metaEval s0 s` (Proofs/SessionUnwind.lean) says that `s` still contains
+everything `s0` had: `s0`'s code is a prefix of the code, every variable of `s0` has its value, the data /
+return / loop / builder stacks of `s0` lie untouched underneath, the pending flows and saved contexts of `s0`
+are still there, replaced constants can be restored. -/
+
+/-- `#(`: the session just inside the block is an extension of the session at the `#(` -/
+theorem meta_block_opens {s0 : Sess} (i : Idle s0) (h0 : s0.m.ctx.mode ≠ .metaEval) :
+    Ext .metaEval s0 (s0.contextOpen .metaEval) := ext_open_block i h0
+
+/-- every step the token loop takes inside the block — compiling a literal or a local, any immediate or ordinary
+    word through the flow-stack compiler, a definition, `late`, `const`, opening a nested block, closing a
+    *nested* block, and the run that follows each of them — keeps the session an extension of the session at
+    the `#(`, or fails in a state that still is one (so that C10's unwinding restores it) -/
+theorem meta_block_steps {s0 s : Sess} (h : Ext .metaEval s0 s) (fuel : Nat) :
+    (∀ op, SOK .metaEval s0 (andRun fuel (.ok (s.emit op)))) ∧
+    (∀ w, SOK .metaEval s0 (andRun fuel (s.ofC (immediate s.toC w)))) ∧
+    (∀ w, SOK .metaEval s0 (andRun fuel (s.ofC (buildWord s.toC w)))) ∧
+    (∀ w n, SOK .metaEval s0 (andRun fuel (s.ofC (withName s.toC w n)))) ∧
+    (∀ n t, SOK .metaEval s0 (andRun fuel (s.ofC (late s.toC n t)))) ∧
+    (∀ n, SOK .metaEval s0 (andRun fuel (s.constDef n))) ∧
+    SOK .metaEval s0 (andRun fuel (.ok (s.contextOpen .metaEval))) ∧
+    (s.nested.length ≠ s0.nested.length + 1 → SOK .metaEval s0 (andRun fuel (s.nestedEnd fuel))) := by
+  obtain ⟨hp, ho⟩ := pre_toC h
+  exact ⟨fun op => sok_andRun fuel (.ok _) (ext_emit op h),
+    fun w => sok_andRun fuel _ (sok_ofC h _ (immediate_good _ _ _ hp ho)),
+    fun w => sok_andRun fuel _ (sok_ofC h _ (buildWord_good _ _ _ hp ho)),
+    fun w n => sok_andRun fuel _ (sok_ofC h _ (withName_good _ _ _ _ hp ho)),
+    fun n t => sok_andRun fuel _ (sok_ofC h _ (late_good _ _ _ _ hp ho)),
+    fun n => sok_andRun fuel _ (sok_constDef h n),
+    sok_andRun fuel (.ok _) (ext_contextOpen h),
+    fun hne => sok_andRun fuel _ (sok_nestedEnd h (Or.inr hne) fuel)⟩
+
+/-- `#)`: from any state inside the block in which the block's own context is current and nothing is open,
+    closing the block gives back the session of the `#(` — context, nesting, pending flows, data stack, every
+    variable, the other stacks — with the code extended by exactly one literal per result, the very opcodes the
+    compiler emits for the values written as literals (`Mach.loadValueOp`), and the part of the dictionary that
+    existed at the `#(` as the block left it (only `const` touches it). The block's own code, words and
+    variables are gone (`meta_close_purges`). -/
+theorem meta_block_closes_clean {s0 s t : Sess} (fuel : Nat) (h0 : s0.m.ctx.mode ≠ .metaEval)
+    (h : Ext .metaEval s0 s) (hbase : s.nested.length = s0.nested.length + 1) (hnp : s.hasPendingFlow = false)
+    (hc : s.contextClose fuel = .ok t) :
+    t.m.ctx = s0.m.ctx ∧ t.nested = s0.nested ∧ t.flows = s0.flows ∧ t.m.ds = s0.m.ds ∧
+    t.m.heap.take s0.m.heap.length = s0.m.heap ∧ hidOf t.m.rs s0.m.rs.length = s0.m.rs ∧
+    hidOf t.m.loops s0.m.loops.length = s0.m.loops ∧ hidOf t.m.special s0.m.special.length = s0.m.special ∧
+    (∃ vs : List Cell, t.m.code = s0.m.code ++ vs.map Mach.loadValueOp) ∧
+    hidOf t.m.dict s0.m.dict.length = hidOf s.m.dict s0.m.dict.length :=
+  block_close fuel h0 h hbase hnp hc
 
 /-- the hypotheses are satisfiable: the empty session is idle, and a source with a meta block compiles -/
 example : Idle ({} : Sess) := ⟨⟨Nat.le_refl _, Nat.le_refl _, Nat.le_refl _, Nat.le_refl _⟩, Nat.le_refl _, rfl⟩
